@@ -105,6 +105,10 @@ def gen(seed, run, tier='quick'):
         'remtop': rng.choice([0, 0, 1]),
         'greg': rng.choice([0, 2, 3]),
         'grem': rng.choice([0, 1, 2]),
+        # registries of types DERIVED from Money / from the generic type:
+        # their own, whatever the parent has registered
+        'subreg': rng.choice([0, 0, 1, 2]),
+        'subrem': rng.choice([0, 0, 1]),
     }
     deep = tier == 'thorough'
     max_depth = MAX_DEPTH + 2 if deep else MAX_DEPTH
@@ -149,8 +153,13 @@ def gen(seed, run, tier='quick'):
         elif kind == '!':
             toks.append(['raise', int(arg)])
     n_tok = max(n_tok, len(toks))
+    p_thread = rng.choice([0, 0, 0, 0.15, 0.3])
     while len(toks) < n_tok:
         k = rng.choices(kinds, weights)[0]
+        if k in THREADABLE and rng.random() < p_thread:
+            # the next registration / removal is made from another thread
+            # (the registries are process-wide)
+            toks.append(['thread'])
         if k == 'enter':
             if depth >= max_depth:
                 continue
@@ -211,6 +220,9 @@ def gen(seed, run, tier='quick'):
             toks.append(['greg', rng.randrange(n_g)])
         elif k == 'grem':
             toks.append(['grem', rng.randrange(n_g)])
+        elif k in ('subreg', 'subrem'):
+            which = rng.randrange(2)
+            toks.append([k, which, rng.randrange(n_mc if which else n_g)])
     cfg = {'codes': codes, 'mconvs': mconvs, 'gconvs': gconvs,
            'amount': f"{rng.randrange(100000, 999999)}/100",
            'gamount': str(rng.randrange(3, 500))}
@@ -247,6 +259,11 @@ def shrink_args(h):
 
 # --------------------------------------------------------------------------
 # execution inside a world
+
+THREADABLE = ('reg', 'rem', 'regtmp', 'remtop', 'regbad', 'greg', 'grem',
+              'subreg', 'subrem')
+HANG_S = 3.0
+
 
 class _SimExit(Exception):
     pass
@@ -448,9 +465,16 @@ def execute(h):
             return observed == conv.get()
         return observed is conv
 
+    # types derived from G and from Money: independent types with
+    # registries of their own
+    SubG = QuantityMeta('SubG', (G,), {})
+    SubMoney = type(Money)('SubMoney', (Money,), {})
+
     # ---- model
     mstack = []     # indices into mconvs, bottom .. top
     glist = []      # indices into gconvs, registration order
+    sub_g = []      # the same for SubG ...
+    sub_m = []      # ... and SubMoney
 
     faults = {}
     probes = {}
@@ -567,6 +591,17 @@ def execute(h):
                     observed=[next((i for i, g in enumerate(gconvs)
                                     if same_conv(x, g)), -1)
                               for x in obs_g])
+        obs_sg = list(SubG.registered_converters())
+        exp_sg = [gconvs[i] for i in reversed(sub_g)]
+        obs_sm = list(SubMoney.registered_converters())
+        exp_sm = [mconvs[i] for i in reversed(sub_m)]
+        if len(obs_sg) != len(exp_sg) or \
+                any(not same_conv(x, y) for x, y in zip(obs_sg, exp_sg)) or \
+                len(obs_sm) != len(exp_sm) or \
+                any(x is not y for x, y in zip(obs_sm, exp_sm)):
+            violate('derived_type_list', 'list', step,
+                    expected=[list(reversed(sub_g)), list(reversed(sub_m))],
+                    observed=[len(obs_sg), len(obs_sm)])
         vec = []
         key_at_start = (tuple(mstack), tuple(glist))
         # --- money conversions, every ordered pair
@@ -801,6 +836,35 @@ def execute(h):
                 if o[0] == 'ok':
                     violate('generic_remove', 'absent_accepted', i, conv=g)
             after(i, o[0])
+        elif op == 'subreg':
+            bump(probes, 'converter_registered_on_a_derived_type')
+            if t[1] % 2:
+                c = t[2] % len(mconvs)
+                SubMoney.register_converter(mconvs[c])
+                sub_m.append(c)
+            else:
+                g = t[2] % len(gconvs)
+                SubG.register_converter(gref(g))
+                if g not in sub_g:
+                    sub_g.append(g)
+            after(i, 'ok')
+        elif op == 'subrem':
+            if t[1] % 2:
+                c = t[2] % len(mconvs)
+                o = observe(lambda: SubMoney.remove_converter(mconvs[c]))
+                good = bool(sub_m) and sub_m[-1] == c
+                if good:
+                    sub_m.pop()
+            else:
+                g = t[2] % len(gconvs)
+                o = observe(lambda: SubG.remove_converter(gref(g)))
+                good = g in sub_g
+                if good:
+                    sub_g.remove(g)
+            if good != (o[0] == 'ok'):
+                violate('derived_type_remove', 'refused' if good
+                        else 'accepted', i, observed=list(o))
+            after(i, o[0])
         elif op == 'raise':
             if depth == 0:
                 return      # nothing to leave
@@ -829,14 +893,59 @@ def execute(h):
         else:
             raise core.HarnessError(f"unknown token {t}")
 
+    next_in_thread = [False]
+
+    def in_thread(i, fn):
+        """Run fn in a fresh thread while this one waits.  A call that
+        does not come back (thread alive and not moving for HANG_S and
+        again for HANG_S / 2) is a violation: the operation neither
+        happened nor was it refused."""
+        import sys
+        import threading
+        box = {}
+
+        def work():
+            try:
+                fn()
+            except BaseException as e:      # noqa: handed to the caller
+                box['exc'] = e
+        th = threading.Thread(target=work, daemon=True)
+        th.start()
+        th.join(HANG_S)
+        if th.is_alive():
+            def where():
+                f = sys._current_frames().get(th.ident)
+                return None if f is None else (id(f), f.f_lasti)
+            w0 = where()
+            th.join(HANG_S / 2)
+            if th.is_alive() and where() != w0:
+                th.join(4 * HANG_S)
+            if th.is_alive():
+                violate('thread', 'call_never_returned', i,
+                        token=list(toks[i]))
+                raise Stop()
+        bump(probes, 'registry_call_from_another_thread')
+        if 'exc' in box:
+            raise box['exc']
+
     def block(i, end, depth):
         """Execute tokens[i:end]."""
         while i < end:
             t = toks[i]
-            if t[0] != 'enter':
-                step(i, depth)
+            if t[0] == 'thread':
+                next_in_thread[0] = True
                 i += 1
                 continue
+            if t[0] != 'enter':
+                if next_in_thread[0] and t[0] in THREADABLE:
+                    next_in_thread[0] = False
+                    in_thread(i, lambda: step(i, depth))
+                else:
+                    next_in_thread[0] = False
+                    step(i, depth)
+                i += 1
+                continue
+            next_in_thread[0] = False
             j = match[i]
             c = t[1] % len(mconvs)
             body_exc = None
@@ -946,6 +1055,10 @@ def _sym(t):
         return 'U.'
     if op in ('greg', 'grem'):
         return {'greg': 'g', 'grem': 'x'}[op] + str(t[1] % 3)
+    if op in ('subreg', 'subrem'):
+        return {'subreg': 's', 'subrem': 'z'}[op] + str(t[1] % 2)
+    if op == 'thread':
+        return 't.'
     return '??'
 
 
